@@ -105,10 +105,17 @@ impl Vm {
     #[verifier::external_body]
     fn load_frame(&mut self) ensures old(self).same_fiber_handles(final(self)) { unimplemented!() }
     // assumed: a fiber that is being switched to / from has at least one frame unless has_finished() (C02 fact of Vm)
+    // The checked configuration reaches the active fiber through `fiber` (borrow-checked), the optimised one through
+    // `unsafe_fiber`: the two builds touch the same fiber only if the handles agree AT EVERY ACCESS — hence the
+    // precondition (and `fiber` must be Some: the checked accessor unwraps it).
     #[verifier::external_body]
-    fn active_fiber(&self) -> (r: &ObjFiber) ensures r.frames@.len() > 0 { unimplemented!() }
+    fn active_fiber(&self) -> (r: &ObjFiber)
+        requires self.fiber is Some, self.coherent(),
+        ensures r.frames@.len() > 0,
+    { unimplemented!() }
     #[verifier::external_body]
     fn active_fiber_mut(&mut self) -> (r: &mut ObjFiber)
+        requires old(self).fiber is Some, old(self).coherent(),
         ensures old(self).same_fiber_handles(final(self)), final(self).ip == old(self).ip,
     { unimplemented!() }
 
@@ -128,7 +135,7 @@ impl Vm {
     //@  subst "(*caller).as_ptr()" => "gc_cell_ptr(&caller)"
     //@  subst "current.as_mut().unwrap().borrow_mut().caller = None;" => "clear_caller(current);"
     //@  subst "arg.unwrap_or_default()" => "value_unwrap_or_default(arg)"
-    //@  requires old(self).coherent()
+    //@  requires old(self).coherent(), old(self).fiber is Some
     //@  ensures final(self).coherent()
     //@  ensures r is Err ==> old(self).same_fiber_handles(final(self))
     //@  ensures r matches Err(e) ==> e.kind is RuntimeError
